@@ -121,7 +121,7 @@ def one_history(ctx, index, rng: random.Random):
     steps = rng.randint(3, 10 if ctx.quick else 20)
     for _ in range(steps):
         op = rng.choice(["fill_int", "fill_float", "fill_n_int", "fill_n_float", "fill_n_none", "add", "sub", "iadd", "isub", "mul", "div",
-                         "normalize", "merge", "set_dtype", "set_dtype", "copy", "assign", "derive"])
+                         "normalize", "merge", "set_dtype", "set_dtype", "copy", "assign", "derive", "set_dtype_signed"])
         before_dtype = np.dtype(h.dtype)
         f0, e0 = shadow_of(h)
         rec.mon("C13.rules")
@@ -279,6 +279,44 @@ def one_history(ctx, index, rng: random.Random):
                             rec.fail(monitor="C13.rules", op=how, symptom="running sums wrapped around / differ from the exact sums", diff=["frequencies"], detail={"parent": str(before_dtype)})
                         if how == "projection" and before_dtype.kind in "iu" and float(gf.sum()) != float(f0.sum()):
                             rec.fail(monitor="C13.rules", op=how, symptom="marginal sums wrapped around / differ from the exact sums", diff=["frequencies"], detail={"parent": str(before_dtype)})
+                    continue
+                elif op == "set_dtype_signed":
+                    # negative contents (made under free arithmetics) and unsigned targets: "within that type's range" has a lower end as well
+                    from physt.config import config as _cfg
+
+                    rec.mon("C13.set_dtype")
+                    hn = h.copy()
+                    negative = rng.random() < 0.7 and float(f0.sum()) > 0
+                    if negative:
+                        with _cfg.enable_free_arithmetics():
+                            hn *= -1
+                            hn.errors2 = np.abs(np.asarray(hn.frequencies))  # keep the squared errors small: only the sign decides
+                    target = rng.choice(["uint8", "uint16", "uint32", "uint64", "int16", "int32", "int64"])
+                    src_dt = np.dtype(hn.dtype)
+                    ok = set_dtype_admissible(hn.frequencies, hn.errors2, src_dt, target)
+                    with attach.quiet():
+                        s_before = snap.snapshot(hn)
+                    raised = None
+                    try:
+                        hn.set_dtype(target)
+                    except Exception as ex:
+                        raised = ex
+                    with attach.quiet():
+                        s_after = snap.snapshot(hn)
+                    if ok and raised is not None:
+                        rec.fail(monitor="C13.set_dtype", op="set_dtype", symptom=f"admissible dtype change refused: {type(raised).__name__}", diff=["raised"],
+                                 detail={"from": str(src_dt), "to": target, "negative": negative, "error": str(raised)[:120]})
+                    elif not ok and raised is None:
+                        rec.fail(monitor="C13.set_dtype", op="set_dtype", symptom="lossy dtype change accepted (values below the target type's range wrapped around)",
+                                 diff=["not_refused"], detail={"from": str(src_dt), "to": target, "negative": negative, "before": np.asarray(s_before["frequencies"][2] if False else hn.frequencies).ravel()[:6]})
+                    elif raised is not None and snap.diff(s_before, s_after):
+                        rec.fail(monitor="C13.set_dtype", op="set_dtype", symptom="a refused dtype change modified the histogram", diff=sorted(snap.diff(s_before, s_after)), detail={"to": target})
+                    elif raised is None:
+                        b = snap.arr_values(s_before["frequencies"]).astype(np.float64)
+                        a = snap.arr_values(s_after["frequencies"]).astype(np.float64)
+                        if not np.array_equal(a, b, equal_nan=True) or np.dtype(hn.dtype) != np.dtype(target):
+                            rec.fail(monitor="C13.set_dtype", op="set_dtype", symptom="values changed by an accepted dtype change", diff=["frequencies"],
+                                     detail={"from": str(src_dt), "to": target, "before": b.ravel()[:6], "after": a.ravel()[:6]})
                     continue
                 elif op == "set_dtype":
                     rec.mon("C13.set_dtype")
